@@ -14,6 +14,7 @@ class Prop(BaseProp):
         "BTreeMap/HashMap as sorted association lists / finite maps; sort_unstable as 'sorted by key with the same multiset'",
     ]
     assumptions = [
+        'whole-file theorems (ShardOk): well-formed records sorted by hash, byte-valued hashes, 64-bit totals, shard below 4 GiB, fewer than eight records under one truncated key (the code reports a collision error otherwise)',
         "records are well-formed: num_entries = number of entries, verification list present iff bit 31, metadata ext present iff bit 30, no stored key is the bookend value",
         "serialisers/parsers are generated from the write_*/read_* call sequences of the Rust serialize/deserialize functions",
     ]
